@@ -85,8 +85,14 @@ func (r *Run) checkJSONError(endpoint string, res *Resp, want string, status int
 	if !strings.Contains(res.Header.Get("Content-Type"), "application/json") {
 		r.violate("C20", "malformed-error", endpoint+":content-type", "%s error response has Content-Type %q", endpoint, res.Header.Get("Content-Type"))
 	}
-	if got, _ := m["error"].(string); got == "error" {
-		r.violate("C20", "non-rfc-error-code", endpoint, "%s error response carries the catch-all code \"error\" (HTTP %d): an internal, non-OAuth error was written to the client: %s", endpoint, res.Status, truncate(res.Body, 200))
+	if got, _ := m["error"].(string); got == "error" && errors.Is(res.Err, fosite.ErrSerializationFailure) {
+		// fosite defines ErrSerializationFailure with the catch-all code and HTTP 409: a retryable conflict by design (C18)
+	} else if got == "error" {
+		key := endpoint
+		if r.Fault.fired && r.Fault.call != "" {
+			key += ":" + r.Fault.call
+		}
+		r.violate("C20", "non-rfc-error-code", key, "%s error response carries the catch-all code \"error\" (HTTP %d): an internal, non-OAuth error was written to the client: %s", endpoint, res.Status, truncate(res.Body, 200))
 	} else if got != want {
 		r.violate("C20", "malformed-error", endpoint, "%s error response carries error=%q, the library raised %q", endpoint, got, want)
 	}
